@@ -368,7 +368,7 @@ func TestC11(t *testing.T) {
 					if actor == "stream" && slow.Load() {
 						return time.Duration(500+lr.Intn(1000)) * time.Millisecond
 					}
-					if actor == "stream" {
+					if actor == "stream" || actor == "ext" {
 						return time.Duration(lr.Intn(3)) * time.Millisecond
 					}
 					return 0
@@ -379,6 +379,14 @@ func TestC11(t *testing.T) {
 					}
 					return 0
 				})
+			// the stream re-reads what is outstanding with a plain query; what it does
+			// with the answer comes a moment later
+			seam.C.SetAutoQueryDelay(func(actor string) time.Duration {
+				if actor == "stream" && !slow.Load() {
+					return time.Duration(lr.Intn(4)) * time.Millisecond
+				}
+				return 0
+			})
 			fs := rig.NewFakeStream(e.Actor("stream"))
 			fs.OnSend = led.onSend
 			fs.SendDelay = func() time.Duration { return time.Duration(lr.Intn(3)) * time.Millisecond }
@@ -574,6 +582,12 @@ func TestC11(t *testing.T) {
 						led.byAck[id].state = "acking"
 					}
 					led.mu.Unlock()
+					racing := r.Intn(2) == 0
+					if racing {
+						// a publish right before it: the stream is busy digesting that
+						// wake-up (re-reading what is outstanding) when the ack commits
+						publish(1)
+					}
 					must(e.Sub.Acknowledge(e.Actor("ext"), &pubsubpb.AcknowledgeRequest{Subscription: sub, AckIds: sel}))
 					led.mu.Lock()
 					for _, id := range sel {
@@ -647,6 +661,7 @@ func TestC11(t *testing.T) {
 				col.Sample(map[string]any{"max_messages": maxMsgs, "max_bytes": maxBytes, "sizes": sizes, "actions": trace, "sends": led.sends})
 			}
 			seam.C.SetBoundaryDelays(nil, nil)
+			seam.C.SetAutoQueryDelay(nil)
 			fs.Cancel()
 			<-hdone
 			_ = herr
